@@ -237,7 +237,8 @@ impl ReadBackend for LocalBackend {
                     return None;
                 }
                 let name = entry.file_name().to_string_lossy();
-                Id::parse_some(&name, tpe)
+                // only files at the path this backend uses for the id are repository files
+                Id::parse_some(&name, tpe).filter(|id| entry.path() == self.path(tpe, id))
             });
         Ok(walker.collect())
     }
@@ -291,7 +292,8 @@ impl ReadBackend for LocalBackend {
                 return None;
             }
             let name = entry.file_name().to_string_lossy();
-            let id = Id::parse_some(&name, tpe)?;
+            // only files at the path this backend uses for the id are repository files
+            let id = Id::parse_some(&name, tpe).filter(|id| entry.path() == self.path(tpe, id))?;
             let length = length(entry.metadata(), &name, tpe)?;
 
             Some((id, length))
